@@ -206,8 +206,66 @@ Proof.
 Qed.
 End FilterMono.
 
+Section ScanMono.
+Variable step : lstep.
+
+Lemma ok_prefix_app_ok : forall (a b : list (res Z)), noerr a = true -> ok_prefix (a ++ b) = ok_prefix a ++ ok_prefix b.
+Proof. induction a as [|[x|] a IH]; intros b H; [reflexivity| |discriminate]. cbn [app ok_prefix]. rewrite (IH b H). reflexivity. Qed.
+
+Lemma scan_stage_okprefix_mono : forall (L S : list (res Z)) st,
+  is_prefix (ok_prefix L) (ok_prefix S) -> is_prefix (ok_prefix (scan_stage step st L)) (ok_prefix (scan_stage step st S)).
+Proof.
+  induction L as [|[x|] L IH]; intros S st Hp; try apply prefix_nil.
+  destruct S as [|[y|] S]; cbn [ok_prefix] in Hp; try (exfalso; exact (prefix_nil_inv _ _ _ Hp)).
+  apply prefix_cons_inv in Hp. destruct Hp as (<- & Hp). cbn [scan_stage]. destruct (step st x) as [st' outs].
+  destruct (noerr outs) eqn:E.
+  - rewrite !ok_prefix_app_ok by exact E. apply prefix_app, IH, Hp.
+  - rewrite !ok_prefix_app_err by exact E. apply prefix_refl.
+Qed.
+
+Lemma scan_stage_noerr_src : forall (S : list (res Z)) st, noerr (scan_stage step st S) = true -> noerr S = true.
+Proof.
+  induction S as [|[x|] S IH]; intros st H; [reflexivity| |discriminate].
+  change (noerr (ROk x :: S)) with (noerr S). cbn [scan_stage] in H. destruct (step st x) as [st' outs].
+  rewrite noerr_app in H. apply andb_prop in H. exact (IH st' (proj2 H)).
+Qed.
+
+Lemma scan_stage_prefix_mono : forall (L S : list (res Z)) st, is_prefix L S -> is_prefix (scan_stage step st L) (scan_stage step st S).
+Proof.
+  induction L as [|x L IH]; intros S st Hp; [apply prefix_nil|].
+  destruct S as [|y S]; [exfalso; exact (prefix_nil_inv _ _ _ Hp)|]. apply prefix_cons_inv in Hp. destruct Hp as (<- & Hp).
+  destruct x as [x|]; cbn [scan_stage].
+  - destruct (step st x) as [st' outs]. apply prefix_app, IH, Hp.
+  - apply prefix_cons, IH, Hp.
+Qed.
+
+Lemma scan_stage_mono : forall st (S L : list (res Z)), lazy_rel S L -> lazy_rel (scan_stage step st S) (scan_stage step st L).
+Proof.
+  intros st S L (Hp & Hn). split; [apply scan_stage_okprefix_mono, Hp|].
+  intro H. pose proof (Hn (scan_stage_noerr_src S st H)) as HL.
+  exact (noerr_prefix _ _ _ (scan_stage_prefix_mono L S st (prefix_of_ok _ L S HL Hp)) H).
+Qed.
+End ScanMono.
+
+(* the consumer that stops: a prefix; it has stopped, or it was handed everything *)
+Lemma take_until_spec : forall stopf l seen,
+  exists n, fst (take_until stopf seen l) = seen ++ firstn n l
+            /\ (snd (take_until stopf seen l) = true -> stopf (fst (take_until stopf seen l)) = true)
+            /\ (snd (take_until stopf seen l) = false -> fst (take_until stopf seen l) = seen ++ l).
+Proof.
+  intros stopf. induction l as [|x l IH]; intro seen; cbn [take_until].
+  - exists 0. cbn [fst snd firstn]. rewrite app_nil_r. split; [reflexivity|]. split; [discriminate|reflexivity].
+  - destruct (stopf (seen ++ [x])) eqn:E.
+    + exists 1. cbn [fst snd firstn]. split; [reflexivity|]. split; [intros _; exact E|discriminate].
+    + destruct (IH (seen ++ [x])) as (n & H1 & H2 & H3). exists (S n). cbn [firstn].
+      split; [rewrite H1, <- app_assoc; reflexivity|]. split; [exact H2|]. intro H. rewrite (H3 H), <- app_assoc. reflexivity.
+Qed.
+
+Lemma lazy_rel_firstn : forall n (l : list (res Z)), lazy_rel l (firstn n l).
+Proof. intros n l. split; [apply ok_prefix_firstn|apply noerr_prefix, firstn_prefix]. Qed.
+
 Lemma lstage_seq_mono : forall s S L, lazy_rel S L -> lazy_rel (lstage_seq s S) (lstage_seq s L).
-Proof. intros [p|p|p] S L H; cbn [lstage_seq]; [apply smap_mono|apply seq_filter_mono|apply smap_mono]; exact H. Qed.
+Proof. intros [p|p|init step] S L H; cbn [lstage_seq]; [apply smap_mono|apply seq_filter_mono|apply scan_stage_mono]; exact H. Qed.
 
 (* ---- one stage under its schedule inputs against the sequential stage on the same source --------------------------- *)
 Lemma map_stage_rel : forall (f : nat -> Z -> res Z) stopf k decide nw sched (items : list (res Z)),
@@ -249,7 +307,8 @@ Qed.
 
 Lemma lstage_par_rel : forall lp s items, lazy_rel (lstage_seq s items) (lstage_par lp s items).
 Proof.
-  intros lp [p|p|p] items; cbn [lstage_seq lstage_par]; [apply map_stage_rel|apply accept_stage_rel|apply seq_stage_rel].
+  intros lp [p|p|init step] items; cbn [lstage_seq lstage_par]; [apply map_stage_rel|apply accept_stage_rel|].
+  destruct (take_until_spec (lp_stop lp) (scan_stage step init items) []) as (n & -> & _). apply lazy_rel_firstn.
 Qed.
 
 (* ---- composition over the pipeline --------------------------------------------------------------------------------- *)
@@ -500,7 +559,10 @@ Lemma lstage_fin_live : forall lp s items, 1 <= pp_nw (lp_pp lp) ->
   \/ (delivered_as_seq (lstage_seq s items) (fst (lstage_fin lp s items))
       /\ (noerr (lstage_seq s items) = true -> snd (lstage_fin lp s items) = false)).
 Proof.
-  intros lp [p|p|p] items Hnw; cbn [lstage_fin lstage_seq fst snd].
+  intros lp [p|p|init step] items Hnw; cbn [lstage_fin lstage_seq fst snd].
+  3:{ destruct (take_until_spec (lp_stop lp) (scan_stage step init items) []) as (n & _ & H2 & H3).
+      destruct (snd (take_until (lp_stop lp) [] (scan_stage step init items))) eqn:E; [left; exact (H2 eq_refl)|].
+      right. rewrite (H3 eq_refl). cbn [app]. split; [apply log_rel_delivered, log_rel_refl|reflexivity]. }
   - destruct (live_gen (lmap_fn p) snoc_log (map_cont (lp_stop lp)) [] (lp_stop lp) (map_cont_stop (lp_stop lp))
                 (pp_k (lp_pp lp)) (pp_decide (lp_pp lp)) (pp_nw (lp_pp lp)) (pp_sched (lp_pp lp)) items Hnw) as [H|(P & Hlr & Hc & Hcl)].
     + left. exact H.
@@ -513,22 +575,18 @@ Proof.
     + right. change (ystop (@filter_step Z) (filter_cont (lp_stop lp))) with (filter_stop_yield (lp_stop lp)) in Hc, Hcl.
       rewrite Hc. unfold hfold. rewrite filter_fold. cbn [app]. rewrite (seq_filter_slog (laccept_fn p) items 0).
       split; [apply filter_delivered, Hlr|]. rewrite noerr_pieces. exact Hcl.
-  - destruct (seq_map_live (lnum_fn p) snoc_log (map_cont (lp_stop lp)) [] (lp_stop lp) (map_cont_stop (lp_stop lp)) items 0 []) as [H|(H & H')];
-      change (ystop snoc_log (map_cont (lp_stop lp))) with (stop_yield (lp_stop lp)) in *; change (hfold snoc_log [] []) with (@nil (res Z)) in *.
-    + right. rewrite H, seq_map_slog, hfold_snoc_log. cbn [fst snd app negb]. split; [apply log_rel_delivered, log_rel_refl|reflexivity].
-    + left. exact H'.
 Qed.
 
 Lemma lstage_fin_rel : forall lp s items, lazy_rel (lstage_seq s items) (fst (lstage_fin lp s items)).
 Proof.
-  intros lp [p|p|p] items; cbn [lstage_fin lstage_seq fst].
+  intros lp [p|p|init step] items; cbn [lstage_fin lstage_seq fst].
+  3:{ destruct (take_until_spec (lp_stop lp) (scan_stage step init items) []) as (n & -> & _). apply lazy_rel_firstn. }
   - destruct (ma_final_as_run (lmap_fn p) snoc_log (map_cont (lp_stop lp)) []
                 (pp_k (lp_pp lp)) (pp_decide (lp_pp lp)) (pp_nw (lp_pp lp)) (pp_sched (lp_pp lp)) items) as (sched' & H).
     change (ystop snoc_log (map_cont (lp_stop lp))) with (stop_yield (lp_stop lp)) in H. rewrite H. apply map_stage_rel.
   - destruct (ma_final_as_run (filter_mapper (laccept_fn p)) (@filter_step Z) (filter_cont (lp_stop lp)) []
                 (pp_k (lp_pp lp)) (pp_decide (lp_pp lp)) (pp_nw (lp_pp lp)) (pp_sched (lp_pp lp)) items) as (sched' & H).
     change (ystop (@filter_step Z) (filter_cont (lp_stop lp))) with (filter_stop_yield (lp_stop lp)) in H. rewrite H. apply accept_stage_rel.
-  - apply seq_stage_rel.
 Qed.
 
 Lemma lazy_run_rel : forall pps cstop stages pos S L, lazy_rel S L -> lazy_rel (lazy_seq stages S) (lazy_run_from pps cstop pos stages L).
@@ -539,8 +597,9 @@ Qed.
 
 Lemma lstage_seq_noerr_src : forall s items, noerr (lstage_seq s items) = true -> noerr items = true.
 Proof.
-  intros [p|p|p] items H; cbn [lstage_seq] in H; try (rewrite seq_map_slog in H; cbn [fst app] in H; exact (slog_noerr_src _ _ _ H)).
-  exact (seq_filter_noerr_src _ _ H).
+  intros [p|p|init step] items H; cbn [lstage_seq] in H; try (rewrite seq_map_slog in H; cbn [fst app] in H; exact (slog_noerr_src _ _ _ H)).
+  - exact (seq_filter_noerr_src _ _ H).
+  - exact (scan_stage_noerr_src _ _ _ H).
 Qed.
 
 Lemma lazy_seq_noerr_src : forall stages items, noerr (lazy_seq stages items) = true -> noerr items = true.
